@@ -7,6 +7,7 @@ import Just.Model.Body
 import Just.Model.Syntax
 import Just.Model.Unindent
 import Just.Model.Header
+import Just.Model.Items
 open Lean Just
 
 /-- first entry whose key occurs in `k` (the fake shell's matching rule) -/
@@ -259,6 +260,7 @@ def tkFromJson (j : Json) : Except String Syntax.Tk := do
   | "plus" => pure .plus | "slash" => pure .slash | "andand" => pure .andand | "barbar" => pure .barbar
   | "lparen" => pure .lparen | "rparen" => pure .rparen | "comma" => pure .comma
   | "lbrace" => pure .lbrace | "rbrace" => pure .rbrace
+  | "Text" => pure (.text s)
   | "eqeq" => pure (.op .eq) | "bangeq" => pure (.op .ne) | "eqtilde" => pure (.op .match) | "bangtilde" => pure (.op .nomatch)
   | other => pure (.other other)
 
@@ -272,6 +274,7 @@ def tkToJson : Syntax.Tk → Json
   | .comma => Json.mkObj [("k", "comma")] | .lbrace => Json.mkObj [("k", "lbrace")] | .rbrace => Json.mkObj [("k", "rbrace")]
   | .op .eq => Json.mkObj [("k", "eqeq")] | .op .ne => Json.mkObj [("k", "bangeq")]
   | .op .match => Json.mkObj [("k", "eqtilde")] | .op .nomatch => Json.mkObj [("k", "bangtilde")]
+  | .text s => Json.mkObj [("k", "Text"), ("s", s)]
   | .other k => Json.mkObj [("k", k)]
 
 def opStr : CondOp → String
@@ -339,6 +342,47 @@ def handleHeader (j : Json) : Except String Json := do
       ("dependencies", Json.arr ((h.priors ++ h.subsequents).map depJson).toArray), ("priors", toJson h.priors.length),
       ("rest", toJson rest.length), ("printed", Json.arr (printed.map tkToJson).toArray), ("reparse_same", same)]
 
+def fragJson : Items.Frag → Json
+  | .text s => Json.str s
+  | .interp e => Json.arr #[exprDump e]
+
+/-- {"op":"item","tokens":[..]}: parse a recipe (header + body), an assignment or an alias; print it back -/
+def handleItem (j : Json) : Except String Json := do
+  let toksJ ← (← j.getObjVal? "tokens").getArr?
+  let toks ← toksJ.toList.mapM tkFromJson
+  let fuel := 4 * toks.length + 16
+  match Items.parseAlias fuel toks with
+  | some (a, rest) =>
+    let printed := Items.printAlias a
+    let same := match Items.parseAlias (4 * printed.length + 16) printed with
+      | some (a2, []) => (repr a2).pretty == (repr a).pretty
+      | _ => false
+    return Json.mkObj [("kind", "alias"), ("name", a.name), ("target", toJson (a.target :: a.path)), ("rest", toJson rest.length),
+      ("printed", Json.arr (printed.map tkToJson).toArray), ("reparse_same", same)]
+  | none =>
+  match Items.parseAssignment fuel toks with
+  | some (a, rest) =>
+    let printed := Items.printAssignment a
+    let same := match Items.parseAssignment (4 * printed.length + 16) printed with
+      | some (a2, []) => (repr a2).pretty == (repr a).pretty
+      | _ => false
+    return Json.mkObj [("kind", "assignment"), ("name", a.name), ("export", a.exported), ("value", exprDump a.value),
+      ("rest", toJson rest.length), ("printed", Json.arr (printed.map tkToJson).toArray), ("reparse_same", same)]
+  | none =>
+  match Items.parseRecipe fuel toks with
+  | some (r, rest) =>
+    let h := r.header
+    let printed := Items.printRecipe r
+    let same := match Items.parseRecipe (4 * printed.length + 16) printed with
+      | some (r2, []) => (repr r2).pretty == (repr r).pretty
+      | _ => false
+    let ps := h.params ++ (match h.variadic with | some v => [v] | none => [])
+    return Json.mkObj [("kind", "recipe"), ("name", h.name), ("quiet", h.quiet), ("parameters", Json.arr (ps.map paramJson).toArray),
+      ("dependencies", Json.arr ((h.priors ++ h.subsequents).map depJson).toArray), ("priors", toJson h.priors.length),
+      ("body", Json.arr (r.body.map (fun l => Json.arr (l.map fragJson).toArray)).toArray),
+      ("rest", toJson rest.length), ("printed", Json.arr (printed.map tkToJson).toArray), ("reparse_same", same)]
+  | none => return Json.mkObj [("parse", Json.null)]
+
 def handleUnindent (j : Json) : Except String Json := do
   let src ← j.getObjValAs? String "src"
   return Json.mkObj [("text", String.ofList (Unindent.unindent src.toList))]
@@ -366,6 +410,7 @@ def handle (line : String) : Json :=
       | "shsplit" => handleShSplit j
       | "lex" => handleLex j
       | "header" => handleHeader j
+      | "item" => handleItem j
       | "unindent" => handleUnindent j
       | "syntax" => handleSyntax j
       | "body" => handleBody j
